@@ -115,7 +115,12 @@ FocusSorts == {TotalAB, <<Term(B, TRUE)>>, <<Term(A, FALSE)>>, <<Term(Fn("neg", 
 FocusCalcs == {Fn("add", <<A, B>>)}
 FocusSlices == {Slice(0, 1), Slice(1, 3), Slice(1, -1), Slice(1, 2)}
 
+\* MenuKind "ss": only sorts and slices - programs of alternating (re-)sorts and windows to depth 4
+\* (a later sort whose terms are a permutation / sub-list of the recorded ORDER BY; windows that move)
+SSSorts == {TotalAB, <<Term(B, FALSE), Term(A, TRUE)>>, <<Term(B, TRUE)>>, <<Term(A, TRUE)>>}
+SSSlices == {Slice(0, 3), Slice(1, 3), Slice(1, 2), Slice(0, 1)}
 UnaryMenu(cols, h) ==
+    IF MenuKind = "ss" THEN {Sort(x) : x \in {y \in SSSorts : SortColsOf(y) \subseteq cols}} \cup SSSlices ELSE
     LET preds == IF MenuKind = "focus" THEN FocusPreds ELSE GeneralPreds
         sorts == IF MenuKind = "focus" THEN FocusSorts ELSE GeneralSorts
         calcs == IF MenuKind = "focus" THEN FocusCalcs ELSE GeneralCalcs
@@ -138,6 +143,7 @@ JoinPreds(cols) == {p \in {PLit(TRUE), Cmp("le", A, CC), Cmp("ne", B, A), Cmp("e
 \* compile model's evaluation very expensive without adding a new shape)
 Unstrippable(r) == r.k = "sel" /\ (r.dedup \/ HasSort(r) \/ HasSlice(r) \/ IsCompound(r)) /\ Len(hist) <= 2
 BinaryCalls(r) ==
+    IF MenuKind = "ss" THEN {} ELSE
     IF MenuKind = "focus"
     THEN {[f |-> "chain", rhs |-> "T3"], [f |-> "join", rhs |-> "T2", p |-> PLit(TRUE)]}
            \cup (IF Unstrippable(r) THEN {[f |-> "joinself"]} ELSE {})
